@@ -3,6 +3,7 @@ package main
 // C18 — Address schemes select the documented transport, or are rejected.
 
 import (
+	"go/constant"
 	"fmt"
 	"go/ast"
 	"go/token"
@@ -177,13 +178,14 @@ var documentedSchemes = map[string]map[string]string{
 }
 
 func checkC18(w *World, r *Report) {
-	r.Explanation = "Decides the table structure of address interpretation: (R18.1) the case sets of every switch over a URL scheme in the four dispatchers contain every documented scheme mapped to the documented implementation type (table transcribed from README.md) and each has a default whose every return carries a non-nil error; sibling switches of one dispatcher agree; (R18.2) every implementation selected for an x+tls scheme derives its secure flag from a +tls test of the scheme (and C04/R04.5 ties that flag to a TLS primitive), and ProtoAddress.Addr has a case for every socket-like scheme a dispatcher admits; (R18.3) all Unmarshal{YAML,JSON,Flag} entry points of one configuration type reach the same scheme dispatcher; (R18.4) in the parsing cone no pointer that is nil on some path is dereferenced without a dominating nil test. Not decided: net/url parsing, the reflection/unsafe bridge in yamlparser.go, arbitrary malformed strings."
+	r.Explanation = "Decides the table structure of address interpretation: (R18.1) the case sets of every switch over a URL scheme in the four dispatchers contain every documented scheme mapped to the documented implementation type (table transcribed from README.md) and each has a default whose every return carries a non-nil error; sibling switches of one dispatcher agree; (R18.2) every implementation selected for an x+tls scheme derives its secure flag from a +tls test of the scheme (and C04/R04.5 ties that flag to a TLS primitive), and ProtoAddress.Addr has a case for every socket-like scheme a dispatcher admits; (R18.3) all Unmarshal{YAML,JSON,Flag} entry points of one configuration type reach the same scheme dispatcher; (R18.4) in the parsing cone no pointer that is nil on some path is dereferenced without a dominating nil test; (R18.6) no interface{} value out of a decoder is type-asserted without the comma-ok form where valid input can reach it. Not decided: net/url parsing, the reflection/unsafe bridge in yamlparser.go, arbitrary malformed strings."
 	r.NotDecided = []string{"net/url parsing of malformed strings", "goccy/go-yaml + reflection bridge (yamlparser.go)", "strings 'near' a scheme beyond the switch tables"}
 	r.Trusted = []string{"README.md's scheme lists as transcribed in the checker's documentedSchemes table"}
 	r.Rule("R18.1", "scheme tables contain the documented schemes with the documented types; error default", 4)
 	r.Rule("R18.2", "+tls selects TLS in every implementation chosen for a +tls scheme; Addr() resolves admitted schemes", 6)
 	r.Rule("R18.3", "one dispatcher per configuration type, whatever the input form", 4)
 	r.Rule("R18.4", "no nil dereference in the parsing cone", 4)
+	r.Rule("R18.6", "no unchecked type assertion on decoded configuration data", 1)
 	r.Rule("R18.5", "Connect never rewrites the configured scheme (reconnects see the same address)", 5)
 
 	sws := findSchemeSwitches(w)
@@ -732,5 +734,89 @@ func c18NilDeref(w *World, r *Report) {
 			}
 		})
 		r.Check(bad == "", "R18.4", key, w.Pos(fn.Pos()), fmt.Sprintf("%d maybe-nil pointer dereference(s), all guarded", nphi), bad, "maybe_nil_derefs", nphi)
+
+		// R18.6: decoded configuration data (interface{} values out of JSON/YAML) is never type-asserted without
+		// the comma-ok form: a value of another JSON type panics instead of yielding a configuration error
+		nta, bad6 := 0, ""
+		allInstrs(fn, func(in ssa.Instruction) {
+			ta, ok := in.(*ssa.TypeAssert)
+			if !ok || ta.CommaOk {
+				return
+			}
+			if it, ok := ta.X.Type().Underlying().(*types.Interface); !ok || it.NumMethods() != 0 {
+				return // only interface{} values (decoded data); typed interfaces are the program's own values
+			}
+			nta++
+			if c18JsonInfeasible(fn, ta) {
+				return
+			}
+			bad6 = fmt.Sprintf("%s: a decoded value is asserted to %s without the comma-ok form: a number, null, list or object in its place panics (no recover in the configuration path) instead of being reported as a configuration error", w.Pos(ta.Pos()), ta.AssertedType)
+		})
+		if nta > 0 {
+			r.Check(bad6 == "", "R18.6", "func:"+ssaFuncKey(fn)+"|unchecked-assert", w.Pos(fn.Pos()), fmt.Sprintf("%d single-value type assertion(s) on decoded data, none reachable with valid input (JSON cannot start with the required prefix)", nta), bad6)
+		}
 	}
+}
+
+// c18JsonInfeasible: the assertion can only run after json.Unmarshal([]byte(x), ...) succeeded AND
+// strings.HasPrefix(x, c) held for a constant c whose first character cannot start a JSON document — an
+// infeasible combination (encoding/json accepts only documents that start, after white space, with one of
+// { [ " - digit t f n).
+func c18JsonInfeasible(fn *ssa.Function, at ssa.Instruction) bool {
+	jsonStart := func(b byte) bool {
+		switch {
+		case b == '{', b == '[', b == '"', b == '-', b == 't', b == 'f', b == 'n', b >= '0' && b <= '9', b == ' ', b == '\t', b == '\n', b == '\r':
+			return true
+		}
+		return false
+	}
+	var prefixed []ssa.Value // strings known to start with a non-JSON character at `at`
+	for _, b := range fn.Blocks {
+		if len(b.Instrs) == 0 {
+			continue
+		}
+		ifi, ok := b.Instrs[len(b.Instrs)-1].(*ssa.If)
+		if !ok || !edgeDominates(b, 0, at.Block()) {
+			continue
+		}
+		c, ok := ifi.Cond.(*ssa.Call)
+		if !ok || !isPkgFunc(sCallee(c), "strings", "HasPrefix") || len(c.Call.Args) != 2 {
+			continue
+		}
+		k, ok := c.Call.Args[1].(*ssa.Const)
+		if !ok || k.Value == nil || k.Value.Kind() != constant.String {
+			continue
+		}
+		sv := constant.StringVal(k.Value)
+		if len(sv) > 0 && !jsonStart(sv[0]) {
+			prefixed = append(prefixed, c.Call.Args[0])
+		}
+	}
+	if len(prefixed) == 0 {
+		return false
+	}
+	// json.Unmarshal([]byte(x), ...) == nil dominating `at` for one of those strings
+	for _, c := range callsIn(fn) {
+		call, ok := c.(*ssa.Call)
+		if !ok || !isPkgFunc(sCallee(c), "encoding/json", "Unmarshal") || len(call.Call.Args) < 1 {
+			continue
+		}
+		src := call.Call.Args[0]
+		if cv, ok := src.(*ssa.Convert); ok {
+			src = cv.X
+		}
+		same := false
+		for _, p := range prefixed {
+			if p == src {
+				same = true
+			}
+		}
+		if !same {
+			continue
+		}
+		if dominatedByCondNil(fn, at, func(v ssa.Value) bool { x, _, ok := nilTest(v); return ok && x == ssa.Value(call) }) {
+			return true
+		}
+	}
+	return false
 }
